@@ -62,8 +62,12 @@ def run_configs(ctx, configs, budget_s, mandatory=0):
         st, probs = kernelmat.run_config(c, deadline=None if ci < mandatory else t_start + budget_s + 45)
         if st is None:
             skipped += 1
+            if probs:
+                ctx.probe("symmetry_spot_check_failed_configuration_not_judged")
             continue
         done += 1
+        if "orbit_representatives" in st:
+            ctx.probe("configuration_traversed_through_orbit_representatives")
         trees += st["states"]
         leaves += st["leaves"]
         states_total += st["states"]
